@@ -13,6 +13,13 @@ use crate::{
 
 const STACK_LIMIT: usize = 32;
 
+/// Expressions and statements are evaluated by recursive descent, so every
+/// level of nesting in the source (parentheses, function arguments, array
+/// subscripts, `IF ... THEN IF ...`) consumes native stack. Nesting deeper
+/// than this is reported as an out-of-memory error instead of overflowing
+/// the native stack (which is only 1 MiB in WebAssembly).
+const NESTING_LIMIT: usize = 64;
+
 #[derive(Debug, Default, Copy, Clone, PartialEq)]
 pub enum ProgramLine {
     #[default]
@@ -100,6 +107,7 @@ pub struct Program {
     loop_stack: Vec<LoopInfo>,
     data_iterator: Option<DataIterator>,
     functions: HashMap<Symbol, FunctionDefinition>,
+    nesting_depth: usize,
 }
 
 impl Program {
@@ -113,6 +121,20 @@ impl Program {
         }
         self.immediate_line = tokens;
         self.location = Default::default();
+    }
+
+    /// Must be called before evaluating something that can nest arbitrarily
+    /// deep in the source, and paired with `leave_nested_evaluation`.
+    pub fn enter_nested_evaluation(&mut self) -> Result<(), TracedInterpreterError> {
+        if self.nesting_depth == NESTING_LIMIT {
+            return Err(OutOfMemoryError::StackOverflow.into());
+        }
+        self.nesting_depth += 1;
+        Ok(())
+    }
+
+    pub fn leave_nested_evaluation(&mut self) {
+        self.nesting_depth -= 1;
     }
 
     /// Removes any loop with the given symbol, and any loops in front of it in
